@@ -194,12 +194,13 @@ static Built build(hlim::Circuit &c, const Case &cs) {
 		b.isConst = true;
 	} else if (k == "fwd") {
 		const std::string &f = cs.par.at(0);
-		if (f == "SIGNAL") { auto *n = c.createNode<hlim::Node_Signal>(); n->moveToGroup(grp); if (b.ops.at(0).connected) n->connectInput(drv(0)); b.node = n; }
-		else if (f == "ATTR") { auto *n = c.createNode<hlim::Node_Attributes>(); n->moveToGroup(grp); if (b.ops.at(0).connected) n->connectInput(drv(0)); b.node = n; }
+		hlim::ConnectionType ty{.type = hlim::ConnectionType::BITVEC, .width = std::stoull(cs.par.at(1))};   // type of an undriven node
+		if (f == "SIGNAL") { auto *n = c.createNode<hlim::Node_Signal>(); n->moveToGroup(grp); if (b.ops.at(0).connected) n->connectInput(drv(0)); else n->setConnectionType(ty); b.node = n; }
+		else if (f == "ATTR") { auto *n = c.createNode<hlim::Node_Attributes>(); n->moveToGroup(grp); if (b.ops.at(0).connected) n->connectInput(drv(0)); else n->setConnectionType(ty); b.node = n; }
 		else if (f == "CDC") { auto *n = c.createNode<hlim::Node_CDC>(); n->moveToGroup(grp); if (b.ops.at(0).connected) n->connectInput(drv(0)); b.node = n; }
-		else if (f == "REGHINT") { auto *n = c.createNode<hlim::Node_RegHint>(); n->moveToGroup(grp); if (b.ops.at(0).connected) n->connectInput(drv(0)); b.node = n; }
+		else if (f == "REGHINT") { auto *n = c.createNode<hlim::Node_RegHint>(); n->moveToGroup(grp); if (b.ops.at(0).connected) n->connectInput(drv(0)); else n->setConnectionType(ty); b.node = n; }
 		else if (f == "BLOCKER") { auto *n = c.createNode<hlim::Node_RetimingBlocker>(); n->moveToGroup(grp); if (b.ops.at(0).connected) n->connectInput(drv(0)); b.node = n; }
-		else if (f == "EXPORT") { auto *n = c.createNode<hlim::Node_ExportOverride>(); n->moveToGroup(grp); if (b.ops.at(0).connected) n->connectInput(drv(0)); b.node = n; }
+		else if (f == "EXPORT") { auto *n = c.createNode<hlim::Node_ExportOverride>(); n->moveToGroup(grp); if (b.ops.at(0).connected) n->connectInput(drv(0)); else n->setConnectionType(ty); b.node = n; }
 		else throw std::runtime_error("bad fwd kind " + f);
 	} else
 		throw std::runtime_error("bad kind " + k);
@@ -226,7 +227,7 @@ static std::string runDirect(const Case &cs, uint64_t seed) {
 	size_t w = n->getOutputConnectionType(0).width;
 	// a node whose operands are all unconnected has no width of its own; the case's width is only checked when it has one
 	bool anyConn = b.isConst; for (auto &o : b.ops) anyConn |= o.connected;
-	if (anyConn && w != expectedWidth(cs)) return "WIDTH-MISMATCH node=" + std::to_string(w) + " case=" + std::to_string(expectedWidth(cs));
+	if ((anyConn || w != 0) && w != expectedWidth(cs)) return "WIDTH-MISMATCH node=" + std::to_string(w) + " case=" + std::to_string(expectedWidth(cs));
 	std::vector<size_t> inOff(std::max<size_t>(n->getNumInputPorts(), 1), ~0ull), outOff(1, ~0ull);
 	for (size_t i = 0; i < n->getNumInputPorts() && i < b.ops.size(); i++)
 		if (b.ops[i].connected) { inOff[i] = L.alloc(b.ops[i].bits.size()); }
@@ -247,6 +248,7 @@ static std::string runDirect(const Case &cs, uint64_t seed) {
 static std::string runStatic(const Case &cs) {
 	hlim::Circuit c;
 	Built b = build(c, cs);
+	if (dynamic_cast<hlim::Node_ExportOverride*>(b.node)) return "SKIP";   // compileStaticEvaluation drops export-override nodes
 	auto v = hlim::evaluateStatically(c, {.node = b.node, .port = 0});
 	return outBits(v, 0, v.size());
 }
